@@ -76,7 +76,7 @@ func verifArbValue(t FieldType, short bool) interface{} {
 	return Interpret(&b, t)
 }
 
-// message shape: DataSets = [[F1, F2], [F3]]; F1 of every abstract type (split) in exact
+// message shape: DataSets = [[F1, F2], [F3], [F4]] (first / middle / last positions of the comma logic); F1 of every abstract type (split) in exact
 // and short encoding, F2 an unsigned32 with an enterprise number, F3 of a second type.
 func VerifIPFIXJSON() {
 	t1 := FieldType(verifSplit(21))
@@ -85,8 +85,9 @@ func VerifIPFIXJSON() {
 	f1 := DecodedField{ID: verifNondetU16(), Value: verifArbValue(t1, short), EnterpriseNo: verifNondetU32()}
 	f2 := DecodedField{ID: verifNondetU16(), Value: verifArbValue(Uint32, false), EnterpriseNo: verifNondetU32()}
 	f3 := DecodedField{ID: verifNondetU16(), Value: verifArbValue(t3, false)}
+	f4 := DecodedField{ID: verifNondetU16(), Value: verifArbValue(Uint64, false)}
 	addr := verifAddr()
-	m := &Message{AgentID: addr.String(), DataSets: [][]DecodedField{{f1, f2}, {f3}}}
+	m := &Message{AgentID: addr.String(), DataSets: [][]DecodedField{{f1, f2}, {f3}, {f4}}}
 	m.Header = MessageHeader{Version: 10, Length: verifNondetU16(), ExportTime: verifNondetU32(), SequenceNo: verifNondetU32(), DomainID: verifNondetU32()}
 	out, err := m.JSONMarshal(new(bytes.Buffer))
 	if err != nil {
@@ -99,10 +100,10 @@ func VerifIPFIXJSON() {
 	verifAssert(verifAll(verifJSONNum(h, "Header.Version", 10, true), verifJSONNum(h, "Header.Length", uint64(m.Header.Length), true),
 		verifJSONNum(h, "Header.ExportTime", uint64(m.Header.ExportTime), true), verifJSONNum(h, "Header.SequenceNo", uint64(m.Header.SequenceNo), true),
 		verifJSONNum(h, "Header.DomainID", uint64(m.Header.DomainID), true)), "header fields")
-	verifAssert(verifAll(verifJSONLen(h, "DataSets") == 2, verifJSONLen(h, "DataSets[0]") == 2, verifJSONLen(h, "DataSets[1]") == 1), "one entry per record, one object per field")
-	fs := [3]DecodedField{f1, f2, f3}
-	ps := [3]string{"DataSets[0][0]", "DataSets[0][1]", "DataSets[1][0]"}
-	for i := 0; i < 3; i++ {
+	verifAssert(verifAll(verifJSONLen(h, "DataSets") == 3, verifJSONLen(h, "DataSets[0]") == 2, verifJSONLen(h, "DataSets[1]") == 1, verifJSONLen(h, "DataSets[2]") == 1), "one entry per record, one object per field")
+	fs := [4]DecodedField{f1, f2, f3, f4}
+	ps := [4]string{"DataSets[0][0]", "DataSets[0][1]", "DataSets[1][0]", "DataSets[2][0]"}
+	for i := 0; i < 4; i++ {
 		verifAssert(verifJSONNum(h, ps[i]+".I", uint64(fs[i].ID), true), "element id")
 		if fs[i].EnterpriseNo != 0 {
 			verifAssert(verifJSONNum(h, ps[i]+".E", uint64(fs[i].EnterpriseNo), true), "enterprise number when non-zero")
